@@ -545,6 +545,7 @@ pub fn synthetic_project(seed: u64) -> Project {
     // generics whose body asks for an instantiation with other arguments (a new one at every
     // level, or a finite orbit)
     let grow_generic = use_generic && rng.chance(1, 3);
+    let clash_generic = use_generic && rng.chance(1, 4);
     // kinds are drawn up front so that utility types can be applied to object types only
     let kinds: Vec<usize> = (0..n_types).map(|_| rng.below(10)).collect();
     let tagged = rng.chance(1, 3);
@@ -913,6 +914,10 @@ pub fn synthetic_project(seed: u64) -> Project {
             if use_generic {
                 src.push_str("export type Box<T> = { value: T; tag?: string };\n");
             }
+            if clash_generic {
+                // user types spelled like the names the compiler gives to generic instances
+                src.push_str("export type Box_string = { clash: true };\nexport type Box_X<T> = { w: T };\nexport type X_Y = { s: string };\nexport type Y = { n: number };\nexport type Clashes = { a: Box<string>; b: Box_string; c?: Box<X_Y>; d?: Box_X<Y> };\n");
+            }
             if grow_generic {
                 src.push_str("export type Nest<T> = { v: T; n?: Nest<T[]> };\nexport type Grow<T> = { v: T; n?: Grow<{ w: T }> | null };\nexport type Swap<A, B> = { a: A; b: B; swap?: Swap<B, A> };\n");
             }
@@ -966,6 +971,9 @@ pub fn synthetic_project(seed: u64) -> Project {
                 keys.push(format!("{}: {}", qn, qn));
             }
             keys.extend(extra_keys.iter().cloned());
+            if clash_generic {
+                keys.push("Clashes: Clashes".into());
+            }
             if ns_import {
                 keys.push("ViaNs: ViaNs".into());
             }
